@@ -444,7 +444,9 @@ def strip_volatile(o):
     return o
 
 
-def run_history(case, ctx, compare_every=True):
+def run_history(case, ctx, compare_every=True, after_step=None):
+    """after_step(g, model, step): called after every successful step on a closed, specified state
+    (used by C11/C16 to judge neighbourhoods/topology after arbitrary histories)."""
     version = case["version"]
     vlevel = case.get("vlevel", 1)
     g = gfapy.Gfa(version=version, vlevel=vlevel)
@@ -537,6 +539,9 @@ def run_history(case, ctx, compare_every=True):
             ctx.count("cascading_removals")
         # ---- C09: every identifier of the model is looked up to the record which carries it
         _lookup_oracle(ctx, g, model, st, si, version)
+        if after_step is not None and model.closed() and not model.unspecified_state():
+            if after_step(g, model, st):
+                return shape
         # ---- C05: content == text the history denotes
         if model.unspecified_state():
             ctx.count("unspecified_states")
@@ -611,6 +616,24 @@ def _lookup_oracle(ctx, g, model, st, si, version):
         if rec.rt == "S" and g.segment(n) is not l:
             ctx.violation("segment-lookup-differs/%s" % st["op"], "after step %d %r: segment(%r) is not line(%r)"
                           % (si, st, n, n), prop="C09")
+            return
+    # placeholders exist exactly for the identifiers which are mentioned but not defined
+    mentioned = {m for x in model.recs for m, role in T.mentions(x)}
+    try:
+        virt = [l for l in g.lines if l.virtual and l.record_type in ("S", "\n")]
+    except Exception:
+        virt = []
+    for l in virt:
+        ctx.count("placeholders_checked")
+        try:
+            pn = l.name
+        except Exception:
+            continue
+        if isinstance(pn, str) and (pn not in mentioned or pn in want):
+            ctx.violation("stale-placeholder/%s/%s" % (st["op"], "defined" if pn in want else "unmentioned"),
+                          "after step %d %r: a placeholder for %r is kept although %s"
+                          % (si, st, pn, "a line carries that identifier" if pn in want else "no line mentions it"),
+                          prop="C09")
             return
     freed = None
     if st["op"] == "rename":
